@@ -36,6 +36,7 @@ def install(E):
         v = args[0]
         if isinstance(v, VList): return VIter(v.term, v.elem)
         if isinstance(v, VIter): return v
+        if isinstance(v, VItems): return v
         raise Undecidable('iter on %r' % (v,), e['loc'])
     S['core::slice::<impl [T]>::iter'] = to_iter
     S['trait:std::iter::IntoIterator::into_iter'] = to_iter
@@ -72,8 +73,29 @@ def install(E):
     S['trait:std::iter::Iterator::collect'] = it_collect
     S['std::iter::Iterator::collect'] = it_collect
 
+    def it_chain(I, args, e, c):
+        a, b = args
+        def as_part(x):
+            if isinstance(x, VList): return VIter(x.term, x.elem)
+            if isinstance(x, (VIter, VItems)): return x
+            raise Undecidable('chain on %r' % (x,), e['loc'])
+        return VItems([as_part(a), as_part(b)], spelt=False)
+    S['trait:std::iter::Iterator::chain'] = it_chain
+    S['std::iter::Iterator::chain'] = it_chain
     def it_any(I, args, e, c):
         it, f = args
+        if isinstance(it, VItems):
+            # any over a spelt-out sequence / a chain: the disjunction over its members / parts, in order
+            parts = []
+            for x in it.parts:
+                if it.spelt:
+                    r = I.apply(f, [x], e['loc'])
+                    if not isinstance(r, VBool): raise Undecidable('any with non-bool closure', e['loc'])
+                    parts.append(r.t)
+                else:
+                    r = it_any(I, [x, f], e, c)
+                    parts.append(r.t)
+            return VBool(Or(*parts)) if parts else VBool(const(False))
         if not isinstance(it, VIter): raise Undecidable('any on %r' % (it,), e['loc'])
         ev = I.fresh(it.elem, ('elem', it.term))
         r = I.apply(f, [ev], e['loc'])
